@@ -604,6 +604,40 @@ inline std::vector<Model> api_models() {
 		if (s1::load(probe, bytes) != 0) vf::fatal(std::string("api model does not reload: ") + kd.name);
 		ms.push_back({kd.name, bytes, {}});
 	}
+	// a shape whose shader carries a CHAIN of controllers: blocks three levels below the shape point back (target) to a
+	// block one level below it
+	for (auto& v : {V{"api:SSE+controller-chain", NiVersion::getSSE()}, V{"api:FO4+controller-chain", NiVersion::getFO4()}}) {
+		NifFile nif;
+		nif.Create(v.ver);
+		auto& hdr = nif.GetHeader();
+		std::vector<Vector3> verts = {{0.0f, 0.0f, 0.0f}, {1.0f, 0.0f, 0.25f}, {0.0f, 1.0f, 0.5f}, {1.0f, 1.0f, 0.75f}};
+		std::vector<Triangle> tris = {{0, 1, 2}, {1, 3, 2}};
+		std::vector<Vector2> uvs = {{0.0f, 0.0f}, {1.0f, 0.0f}, {0.0f, 1.0f}, {1.0f, 1.0f}};
+		std::vector<Vector3> norms(4, Vector3(0.0f, 0.0f, 1.0f));
+		nif.CreateShapeFromData("Filler", &verts, &tris, &uvs, &norms); // so that block numbers differ between models
+		NiShape* shape = nif.CreateShapeFromData("ApiAnimated", &verts, &tris, &uvs, &norms);
+		NiShader* shader = shape ? nif.GetShader(shape) : nullptr;
+		if (!shader) vf::fatal(std::string("api model has no shader: ") + v.name);
+		uint32_t shaderId = hdr.GetBlockID(shader);
+		uint32_t nextId = NIF_NPOS;
+		for (int k = 2; k >= 0; k--) { // built back to front: controller #0 -> #1 -> #2
+			auto interp = std::make_unique<NiFloatInterpolator>();
+			interp->floatValue = 0.25f * (float) (k + 1);
+			uint32_t interpId = hdr.AddBlock(std::move(interp));
+			auto ctl = std::make_unique<BSLightingShaderPropertyFloatController>();
+			ctl->typeOfControlledVariable = 8 + (uint32_t) k;
+			ctl->targetRef.index = shaderId;
+			ctl->interpolatorRef.index = interpId;
+			ctl->nextControllerRef.index = nextId;
+			nextId = hdr.AddBlock(std::move(ctl));
+		}
+		shader->controllerRef.index = nextId;
+		std::string bytes = s1::save(nif, true);
+		if (bytes.empty()) vf::fatal(std::string("api model could not be saved: ") + v.name);
+		NifFile probe;
+		if (s1::load(probe, bytes) != 0) vf::fatal(std::string("api model does not reload: ") + v.name);
+		ms.push_back({v.name, bytes, {}});
+	}
 	return ms;
 }
 
